@@ -45,8 +45,21 @@ int main() {
     bool threw = false, logic = false; std::string note;
     try {
       if (entry == "Rotate(U)" || entry == "SU_vector(matrix)") {
-        gsl_matrix_complex* U = gsl_matrix_complex_calloc(r, c);
-        for (int i = 0; i < r && i < c; i++) gsl_matrix_complex_set(U, i, i, gsl_complex_rect(1, 0));
+        // every second case hands the r x c matrix over as a VIEW into a larger one (row stride != number of columns),
+        // alternately a parent whose stride equals r (so that "rows = stride" cannot pass for "square")
+        gsl_matrix_complex* parent = nullptr; gsl_matrix_complex_view vw;
+        gsl_matrix_complex* U;
+        if (idx % 2) {
+          int pr = r + 2, pc = (idx % 4 == 1 && r > c) ? r : c + 3;
+          parent = gsl_matrix_complex_calloc(pr, pc);
+          for (int i = 0; i < pr; i++) for (int j = 0; j < pc; j++) gsl_matrix_complex_set(parent, i, j, gsl_complex_rect(0.01 * (i + 1), 0.02 * (j + 1)));
+          vw = gsl_matrix_complex_submatrix(parent, 1, 0, r, c);
+          U = &vw.matrix;
+          for (int i = 0; i < r; i++) for (int j = 0; j < c; j++) gsl_matrix_complex_set(U, i, j, gsl_complex_rect(i == j ? 1 : 0, 0));
+        } else {
+          U = gsl_matrix_complex_calloc(r, c);
+          for (int i = 0; i < r && i < c; i++) gsl_matrix_complex_set(U, i, i, gsl_complex_rect(1, 0));
+        }
         if (entry == "Rotate(U)") {
           SU_vector a = mk(d1, 1); auto sa = snap(a);
           try { SU_vector res = a.Rotate(U); if ((int)res.Dim() != d1) note = "result-dim"; } catch (std::exception&) { threw = true; }
@@ -54,7 +67,7 @@ int main() {
         } else {
           try { SU_vector res(U); if ((int)res.Dim() != r) note = "result-dim"; } catch (std::exception&) { threw = true; }
         }
-        gsl_matrix_complex_free(U);
+        if (parent) gsl_matrix_complex_free(parent); else gsl_matrix_complex_free(U);
       } else if (entry.rfind("WeightedRotation", 0) == 0) {
         SU_vector a = mk(d1, 1), y = mk(d2, 2); auto sa = snap(a), sy = snap(y);
         Const par; par.SetMixingAngle(0, 1, 0.3);
